@@ -74,7 +74,7 @@ impl Wide for u128 {
 }
 
 fn usage() -> ! {
-    eprintln!("usage: skaharness <tables|bits|roll|skfload|skfdamage|rt|fresh|cov|covfn|covfit> ...");
+    eprintln!("usage: skaharness <tables|bits|roll|skfload|skfdamage|rows|rt|fresh|cov|covfn|covfit> ...");
     std::process::exit(64)
 }
 
@@ -89,6 +89,7 @@ fn main() {
         "roll" => roll(&args[2..]),
         "skfload" => skfload(&args[2..]),
         "skfdamage" => skfdamage(&args[2..]),
+        "rows" => rows(&args[2..]),
         "rt" => rt(&args[2..]),
         "fresh" => fresh(&args[2..]),
         "multik" => multik(&args[2..]),
@@ -444,6 +445,73 @@ fn skfload(a: &[String]) {
             println!("REJECT\t{}", e.replace('\n', " "));
             std::process::exit(3);
         }
+    }
+}
+
+/// rows <file>: every stored field of the object, decoded generically from its serialisation, rows sorted by k-mer:
+/// `ROW <split k-mer integer> <bases> <stored count>`; what `nk` does not show (the per-row counts, the lengths of the
+/// three parallel containers) is visible here.
+fn rows_of<IntT: Wide>(a: &MergeSkaArray<IntT>) {
+    use ciborium::Value;
+    let mut cbor: Vec<u8> = Vec::new();
+    ciborium::ser::into_writer(a, &mut cbor).expect("re-serialisation failed");
+    let v: Value = ciborium::de::from_reader(&cbor[..]).expect("generic decode failed");
+    let m = v.as_map().expect("not a map");
+    let get = |name: &str| -> &Value {
+        &m.iter().find(|(k, _)| k.as_text() == Some(name)).unwrap_or_else(|| panic!("field {name} missing")).1
+    };
+    let int = |x: &Value| -> u128 {
+        match x {
+            Value::Integer(i) => u128::try_from(i128::from(*i)).unwrap(),
+            Value::Tag(_, b) => match &**b {
+                Value::Bytes(bs) => bs.iter().fold(0u128, |acc, b| (acc << 8) | (*b as u128)),
+                _ => panic!("unexpected tagged value"),
+            },
+            Value::Bytes(bs) => bs.iter().fold(0u128, |acc, b| (acc << 8) | (*b as u128)),
+            _ => panic!("not an integer: {x:?}"),
+        }
+    };
+    let k = int(get("k"));
+    let names: Vec<String> = get("names").as_array().unwrap().iter().map(|x| x.as_text().unwrap().to_string()).collect();
+    let kmers: Vec<u128> = get("split_kmers").as_array().unwrap().iter().map(int).collect();
+    let counts: Vec<u128> = get("variant_count").as_array().unwrap().iter().map(int).collect();
+    let var = get("variants").as_map().unwrap();
+    let vget = |name: &str| -> &Value { &var.iter().find(|(k, _)| k.as_text() == Some(name)).unwrap().1 };
+    let dim: Vec<u128> = vget("dim").as_array().unwrap().iter().map(int).collect();
+    let data: Vec<u8> = match vget("data") {
+        Value::Array(xs) => xs.iter().map(|x| int(x) as u8).collect(),
+        Value::Bytes(bs) => bs.clone(),
+        other => panic!("unexpected data {other:?}"),
+    };
+    println!("k\t{k}");
+    println!("rc\t{}", get("rc").as_bool().unwrap());
+    println!("k_bits\t{}", int(get("k_bits")));
+    println!("names\t{}", names.join(","));
+    println!("lengths\tsplit_kmers={} variant_count={} dim={}x{} data={}", kmers.len(), counts.len(), dim[0], dim[1], data.len());
+    let nc = dim[1] as usize;
+    if kmers.len() != counts.len() || kmers.len() != dim[0] as usize || data.len() != kmers.len() * nc || nc != names.len() {
+        println!("INCONSISTENT");
+        return;
+    }
+    let mut out: Vec<(u128, String, u128)> = (0..kmers.len())
+        .map(|i| (kmers[i], String::from_utf8_lossy(&data[i * nc..(i + 1) * nc]).to_string(), counts[i]))
+        .collect();
+    out.sort();
+    for (km, b, c) in out {
+        println!("ROW\t{km}\t{b}\t{c}");
+    }
+}
+
+fn rows(a: &[String]) {
+    match MergeSkaArray::<u64>::load(&a[0]) {
+        Ok(arr) => rows_of(&arr),
+        Err(e1) => match MergeSkaArray::<u128>::load(&a[0]) {
+            Ok(arr) => rows_of(&arr),
+            Err(e2) => {
+                println!("REJECT\t{e1} / {e2}");
+                std::process::exit(3);
+            }
+        },
     }
 }
 
